@@ -7,6 +7,8 @@
   the code there so that the correspondence check covers those inputs.
 -/
 import HugrVerif.Proofs.Handle
+import HugrVerif.Proofs.Build
+import HugrVerif.Proofs.Ops
 
 namespace HugrVerif.Props.C16
 open HugrVerif HugrVerif.Handle HugrVerif.Py
@@ -252,7 +254,7 @@ theorem wire_is_index0 (h : Node) (hc : h.numOut = none ∨ ∃ n, h.numOut = so
     rw [this]; simp [out, outPort]
 
 /-- Ports compare by node index, offset (and class, i.e. direction) only … -/
-theorem port_eq_iff (p q : Port) :
+theorem port_eq_iff (p q : Handle.Port) :
     Port.eq p q = true ↔ (p.node.idx = q.node.idx ∧ p.offset = q.offset ∧ p.dir = q.dir) := by
   simp [Port.eq, Node.eq]
   constructor
@@ -260,12 +262,12 @@ theorem port_eq_iff (p q : Port) :
   · rintro ⟨a, b, c⟩; exact ⟨c, a, b⟩
 
 /-- … and hash by node index and offset only. -/
-theorem port_hash_iff (p q : Port) :
+theorem port_hash_iff (p q : Handle.Port) :
     Port.hashKey p = Port.hashKey q ↔ (p.node.idx = q.node.idx ∧ p.offset = q.offset) := by
   simp [Port.hashKey, Node.hashKey]
 
 /-- Equal ports hash equally. -/
-theorem port_eq_hash (p q : Port) (h : Port.eq p q = true) : Port.hashKey p = Port.hashKey q := by
+theorem port_eq_hash (p q : Handle.Port) (h : Port.eq p q = true) : Port.hashKey p = Port.hashKey q := by
   rw [port_eq_iff] at h
   exact (port_hash_iff p q).mpr ⟨h.1, h.2.1⟩
 
@@ -344,3 +346,167 @@ example : Port.eq (out (addOp 3 5 [("a", "b")]) 1) (out (addNode 3 none) 1) = tr
 example : Port.eq (out (addOp 3 5) 1) (inp (addOp 3 5) 1) = false := by decide
 
 end HugrVerif.Props.C16
+
+/-! ### Where handles get their count — in the builder model (`Build/State.lean`, tied to `hugr/build/*` by the
+    C13 / C15 / C01 correspondence streams)
+
+  The statements of the section "Where handles get their count" above are about the thin provenance model of
+  `Handle.lean`; the ones below are about the full builder-state model: the handle a builder call returns carries
+  the number of value outputs of the operation the HUGR holds at that node after wiring (`add_op`: read off the
+  completed operation), of the instantiated signature (`call`), the number of wires given to `set_outputs`
+  (container builders), the output-port count recorded for the inserted root (`insert_*`). -/
+
+namespace HugrVerif.Props.C16.BuilderModel
+open HugrVerif HugrVerif.Build HugrVerif.Build.BuildState
+
+
+theorem getHugr_setHugr (st : BuildState) (hid : Nat) (s0 s : St) (h : st.getHugr hid = .ok s0) :
+    (st.setHugr hid s).getHugr hid = .ok s := by
+  unfold BuildState.getHugr at h ⊢
+  unfold BuildState.setHugr
+  cases hx : st.hugrs[hid]? with
+  | none => simp [hx] at h
+  | some x =>
+    have hlt : hid < st.hugrs.length := by
+      rcases Nat.lt_or_ge hid st.hugrs.length with h1 | h1
+      · exact h1
+      · simp [List.getElem?_eq_none h1] at hx
+    simp [hlt]
+
+/-- `add_op` of the builder model: the handle knows `num_out` of the operation the node carries after wiring. -/
+theorem build_addOp_handle (st st' : BuildState) (bi : Nat) (op : Op) (ws : List Wire) (md : Serial.Meta) (h : Build.Handle)
+    (hok : addOp st bi op ws md = .ok (st', h)) :
+    ∃ r s' op' k, st.getB bi = .ok r ∧ st'.getHugr r.hid = .ok s' ∧ nodeOp s' h.1 = .ok op' ∧
+      Op.numOut op' = .ok k ∧ h.2 = some k := by
+  unfold addOp at hok
+  split at hok
+  · cases hok
+  · rename_i r hr
+    split at hok
+    · cases hok
+    · rename_i s hs
+      split at hok
+      · cases hok
+      · rename_i s1 n h1
+        split at hok
+        · cases hok
+        · rename_i s2 tys h2
+          split at hok
+          · cases hok
+          · rename_i op' hop
+            split at hok
+            · cases hok
+            · rename_i k hk
+              cases hok
+              exact ⟨r, s2, op', k, hr, getHugr_setHugr st r.hid s s2 hs, hop, hk, rfl⟩
+
+theorem getB_setHugr (st : BuildState) (hid bi : Nat) (s : St) : (st.setHugr hid s).getB bi = st.getB bi := rfl
+
+/-- `call` of the builder model: the handle knows the number of outputs of the *instantiated* signature of the
+    `Call` operation that was built [F08]. -/
+theorem build_call_handle (st st' : BuildState) (bi func : Nat) (ws : List Wire) (inst : Option Sig)
+    (targs : Option (List TypeArg)) (h : Build.Handle) (hok : call st bi func ws inst targs = .ok (st', h)) :
+    ∃ r s sig cop k, st.getB bi = .ok r ∧ st.getHugr r.hid = .ok s ∧ fnSig s func = .ok sig ∧
+      Op.mkCall sig inst targs = .ok cop ∧ Op.numOut cop = .ok k ∧ h.2 = some k := by
+  unfold call at hok
+  split at hok
+  · cases hok
+  · rename_i r hr
+    split at hok
+    · cases hok
+    · rename_i s hs
+      split at hok
+      · cases hok
+      · rename_i sig hsig
+        split at hok
+        · cases hok
+        · rename_i cop hcop
+          split at hok
+          · rename_i k fpo hk hf
+            split at hok
+            · cases hok
+            · split at hok
+              · cases hok
+              · split at hok
+                · cases hok
+                · cases hok
+                  exact ⟨r, s, sig, cop, k, hr, hs, hsig, hcop, hk, rfl⟩
+          · cases hok
+          · cases hok
+
+/-- a container builder once its outputs are set (`Dfg.set_outputs`): the builder's parent handle knows the number
+    of wires given, and so does the store's output-port counter of the container node. -/
+theorem build_setParentOutputCount (st st' : BuildState) (bi count : Nat)
+    (hok : setParentOutputCount st bi count = .ok st') :
+    ∃ r r', st.getB bi = .ok r ∧ st'.getB bi = .ok r' ∧ r'.parent = (r.parent.1, some count) := by
+  unfold setParentOutputCount at hok
+  split at hok
+  · cases hok
+  · rename_i r hr
+    split at hok
+    · cases hok
+    · split at hok
+      · cases hok
+      · cases hok
+        exact ⟨r, { r with parent := (r.parent.1, some count) }, hr,
+          getB_setB (st.setHugr r.hid _) bi r _ (by rw [getB_setHugr]; exact hr), rfl⟩
+
+theorem build_setOutputsDfg_handle (st st' : BuildState) (bi : Nat) (ws : List Wire)
+    (hok : setOutputsDfg st bi ws = .ok st') :
+    ∃ r', st'.getB bi = .ok r' ∧ r'.parent.2 = some ws.length := by
+  unfold setOutputsDfg at hok
+  split at hok
+  · cases hok
+  · rename_i st1 h1
+    obtain ⟨r, r', _, h2, h3⟩ := build_setParentOutputCount st1 st' bi ws.length hok
+    exact ⟨r', h2, by rw [h3]⟩
+
+/-- `insert_nested` (and `insert_cfg / insert_conditional / insert_tail_loop`, which share `_insert_nested_impl`):
+    the handle knows the output-port count recorded for the inserted HUGR's root. -/
+theorem build_insertNested_handle (st st' : BuildState) (bi oi : Nat) (ws : List Wire) (h : Build.Handle)
+    (hok : insertNested st bi oi ws = .ok (st', h)) :
+    ∃ o sb d, st.getB oi = .ok o ∧ st.getHugr o.hid = .ok sb ∧ Store.getNode sb o.parent.1 = .ok d ∧
+      h.2 = some d.numOuts := by
+  unfold insertNested at hok
+  split at hok
+  · rename_i r o hr ho
+    split at hok
+    · cases hok
+    · split at hok
+      · rename_i s sb hs hsb
+        split at hok
+        · cases hok
+        · split at hok
+          · cases hok
+          · split at hok
+            · cases hok
+            · split at hok
+              · cases hok
+              · rename_i d hd
+                cases hok
+                exact ⟨o, sb, d, ho, hsb, hd, rfl⟩
+      · cases hok
+      · cases hok
+  · cases hok
+  · cases hok
+
+/-- … and that count is the number of outputs of the operation's signature whenever it has one. -/
+theorem build_addOp_handle_sig (st st' : BuildState) (bi : Nat) (op : Op) (ws : List Wire) (md : Serial.Meta)
+    (h : Build.Handle) (hok : addOp st bi op ws md = .ok (st', h)) :
+    ∃ r s' op', st.getB bi = .ok r ∧ st'.getHugr r.hid = .ok s' ∧ nodeOp s' h.1 = .ok op' ∧
+      ∀ sg, Op.outerSig op' = .ok sg → h.2 = some sg.out.length := by
+  obtain ⟨r, s', op', k, a, b, c, d, e⟩ := build_addOp_handle st st' bi op ws md h hok
+  refine ⟨r, s', op', a, b, c, fun sg hsg => ?_⟩
+  have := OpProofs.numOut_of_outerSig op' sg hsg
+  rw [d] at this
+  injection this with this
+  rw [e, this]
+
+/-- non-vacuity: `Dfg(Bool).add_op(Not, inputs()[0])` returns a handle that knows its one output -/
+example : (match newStandaloneDf {} .dfg (.dfg [.unitSum 2] none []) with
+    | .ok (st, bi) => (match addOp st bi (.custom "Not" ⟨[.unitSum 2], [.unitSum 2], []⟩ "" "logic" []) [(1, 0)] [] with
+      | .ok (_, h) => some h
+      | .error _ => none)
+    | .error _ => none) = some (3, some 1) := by decide +kernel
+
+end HugrVerif.Props.C16.BuilderModel
